@@ -184,6 +184,10 @@ class Know:
                     dispatched.append(s)
             if e["k"] == "WAIT":
                 yield ("wait", e, list(dispatched), set(known_done))
+            elif e["k"] == "WAITSTEP":
+                # the scheduler is still blocked in an ALL_COMPLETED wait although these nodes are done: what it
+                # would know had it woken up
+                yield ("wait", dict(e, blocking=True, step=True), list(dispatched), set(known_done) | set(e["done"]))
             elif e["k"] == "WAITRET":
                 for s in e["observed"]:
                     known_done.add(s)
